@@ -612,6 +612,14 @@ Example ex_spec_applies_full :
   /\ body_attr_ok (attrs_of ex_method) (mkBinding "post" "/v1/{name=items/*}/{sub.class_=things/*}:one" (Some "sub")) = true.
 Proof. split; vm_compute; reflexivity. Qed.
 
+(* the body of a call is handed to the session iff the first binding has one, streaming or not, sync or async *)
+Lemma data_kw_iff_body body is_async streaming :
+  In "data"%string (response_kwargs body is_async streaming) <-> body = true.
+Proof.
+  unfold response_kwargs. destruct body, is_async, streaming; simpl; split; intros H; try reflexivity; try discriminate;
+    intuition discriminate.
+Qed.
+
 (* ------------------------------------------------------------------ T0 pins: the literals Model/Http.v was written against *)
 Example pin_PATH_PARAMS_RE : PATH_PARAMS_RE_src = "\{(\w+)(?:=.+?)?\}"%string.
 Proof. reflexivity. Qed.
